@@ -198,6 +198,7 @@ let do_op (op : string) (sts : d list) : d list =
           { st with have_watch = true }
         else { st with m = fst (apply st.m CloneHandle); watchers = st.watchers + 1; have_watch = true })
   | "p" -> dedup all
+  | "N" -> dedup all      (* the harness checks that `stopped` has not resolved yet: invisible to the model *)
   | "A" -> each (fun st -> { st with released = List.init (List.length st.calls) (fun i -> i) })
   | "Z" -> dedup (wait op (fun s -> s.have_watch && s.stopped_logged) cl)
   | _ ->
